@@ -450,6 +450,7 @@ func main() {
 	extractAsserts(*repo, files)
 	extractAccess(*repo, files)
 	extractEngineApi(*repo, files)
+	extractFrame(*repo, files)
 	sort.Strings(fx.Unknown)
 	files["Unknown.lean"] = "-- GENERATED by /verif/extract from /repo; do not edit.\nnamespace Arca.Gen\n\n/-- constructs the extractor did not recognise -/\ndef unknown : List String := " +
 		leanStrList(fx.Unknown) + "\n\nend Arca.Gen\n"
